@@ -7,8 +7,8 @@ claim("C01",
       "Proof, for all inputs, of the sequential specification of the in-memory collection's Get/Create/Update/Destroy inside one critical section "
       "(success iff the spec's conditions with check precedence not-found/owner/version/phase, version+1, creation time kept, whole-view frame, failure leaves "
       "storage and log untouched, write-back), of the error constructors' classes, the conflict-error resource invariant and the Is*Error predicates' panic-freedom; "
-      "namespaced.State hands every caller the one state instance published for a namespace (also under a first-use race).",
-      COMMON + "The step 'one critical section per operation implies linearizability' is cited, not machine-checked. inmem.State routing, the per-operation routing of namespaced.State, List, "
+      "namespaced.State hands every caller the one state instance published for a namespace (also under a first-use race) and routes each of its eight operations, unchanged, to the instance of the namespace the resource / pointer / kind names.",
+      COMMON + "The step 'one critical section per operation implies linearizability' is cited, not machine-checked. inmem.State routing, List, "
       "and remote states are not under contract. Environment assumptions: caller-isolation and copy-private (assume_at_acquire).",
       "DESIGN.md §6 C01")
 claim("C02",
@@ -19,26 +19,39 @@ claim("C02",
       "the final composition window-copy+lap-index+ring => events[i]==log[pos+i] is cited. filterInPlaceMutating trusted.",
       "DESIGN.md §6 C02")
 claim("C03",
-      "Proof that Destroy removes a resource only if its finalizer set is empty in the same critical section (and owner matches), fails with the conflict class otherwise and leaves the state untouched.",
-      COMMON + "Teardown/TeardownAndDestroy/WatchFor/ContextWithTeardown helpers are not under contract yet; liveness ('always completes') is outside this family.",
+      "Proof that Destroy removes a resource only if its finalizer set is empty in the same critical section (and owner matches), fails with the conflict class otherwise and leaves the state untouched; "
+      "that Teardown answers readiness from the latest value it has seen; that WatchForCondition.Matches implements each filter (event types, resource present, finalizers empty, phases) and WatchFor puts "
+      "every event it receives to it, goes on waiting only after a clean 'no' and returns the resource of the event that matched; that waitFinalizersEmpty skips no Destroyed event and no Created/Updated event "
+      "showing an empty finalizer set, reports 'gone' only for a Destroyed event, and TeardownAndDestroy reports success only after that event or a successful Destroy (and destroys at once only when Teardown "
+      "said ready); that the goroutine behind a teardown-bound context goes on waiting only after an event that is neither tearing-down, Destroyed nor Errored and that each of its exits has exactly one of those reasons "
+      "(or the parent context being done).",
+      COMMON + "Per-iteration obligations on the helpers' event loops (at backedge / at return); that a watch delivers the state at call time as its first event is C02's subject; channel events of type "
+      "Created/Updated are assumed to carry a resource; ctx.Err() is assumed non-nil after Done fired. Liveness ('always completes when finalizers end up empty') is outside this family: what is proved is that no deciding event is skipped.",
       "DESIGN.md §6 C03")
 claim("C08",
       "Proof, for all declared input/output sets and targets, that the access predicates equal their specification (loops with invariants), that every delegated "
       "call of the controller state adapter is dominated by the matching predicate (assertions at call sites), that a rejected operation performs no delegated call, "
-      "and that the input declaration accepted by rruntime UpdateInputs is stored as a private snapshot (fresh slice, same elements).",
-      COMMON + "owned.State/cache methods are used through trusted delegation-counter contracts; owner stamping in owned.State and CleanupOutputs are not under contract yet.",
+      "and that the input declaration accepted by rruntime UpdateInputs is stored as a private snapshot (fresh slice, same elements) while a refused update leaves the declared inputs as they were "
+      "(an unsupported input kind is refused before anything is changed; the watch-filter bookkeeping writes nothing but the filter map).",
+      COMMON + "owned.State is under contract: every write it issues carries the State's own owner unless the caller asked for no owner (Create/Modify) or named another owner (Teardown/Destroy), asserted at the delegated call over "
+      "the owner the option passed carries (specification functions defined by the option constructors, whose closures are proved to store that owner); assumed: a State was built by New over an existing state. "
+      "The runtime cache is used through trusted delegation-counter contracts; CleanupOutputs is not under contract yet; that the store refuses a foreign owner is C01.",
       "DESIGN.md §6 C08")
 claim("C10",
       "Proof of the ordering obligations in the collection: a backing-store error is returned with storage and log untouched, success implies the store call succeeded "
-      "(ghost flags lastPutOK/lastDestroyOK), memory is changed and the event published only after the store call returned nil.",
-      COMMON + "bbolt's crash atomicity, loadStore and the bolt store itself are not under contract.",
+      "(ghost flags lastPutOK/lastDestroyOK), memory is changed and the event published only after the store call returned nil; the zstd decoder of the compression wrapper is built only from options that do not limit what it accepts "
+      "(precondition of the assumed NewReader contract), so that whatever the unlimited encoder wrote can be read back after a restart.",
+      COMMON + "inmem.State.loadStore marks the state loaded only after the backing store's Load returned nil and reports a failed load. bbolt's crash atomicity, what the load injects and the bolt store itself are not under contract.",
       "DESIGN.md §6 C10")
 claim("C11",
       "No-panic sweep: every unary server handler (Get/List/Create/Update/Destroy/Teardown/TeardownAndDestroy), ConvertLabelQuery/ConvertIDQuery, mapEvent and "
       "marshalResource are proved panic-free for every request value (nil sub-messages, empty slices, any enum value); label-query translation keeps inversion per "
-      "term; the client's Teardown has evaluated all caller options before it chooses between the native call and the Get+Update fallback.",
+      "term; the client's Teardown and TeardownAndDestroy have evaluated all caller options before they choose between the native call and the fallback; error classes: every unary server handler turns the class of the "
+      "wrapped state's error (not-found, owner conflict, phase conflict, conflict, tested in this order) into its status code, and every client method turns the status code back into that class (ghost locals record the error "
+      "being classified; status.Error/status.Code are tied by an assumed specification function); the write-back helper touches only the caller's metadata. Finding F12 (phase conflict of Teardown lost over the wire) was found by these clauses and repaired.",
       COMMON + "Preconditions: request pointer non-nil, repeated message fields hold no nil elements (protobuf decoder). Protobuf codec functions trusted. "
-      "Error-class preservation, write-back, sticky fallback and server.Watch are not under contract yet.",
+      "The composition 'client after server is the identity on classes' is the conjunction of the two tables (cited). gRPC stubs assumed to write none of the caller's memory. "
+      "Write-back equality, List, and server.Watch are not under contract yet.",
       "DESIGN.md §6 C11")
 claim("C12",
       "Proof that encode/decode of bookmarks are inverse and total, that Watch and WatchAll accept a bookmark exactly inside the retained window (both directions, "
@@ -57,17 +70,17 @@ claim("C04",
       "and the expected-phase check happens on the value just read before anything else (also when the change is a no-op); Teardown answers its readiness from "
       "the latest value it has seen (the one returned by the retrying update, not the stale first read); ModifyWithResult reports a refused Create as an error "
       "instead of starting over with an already mutated object.",
-      COMMON + "Environment as the property states (no concurrent Destroy/re-create). Modify, Add/RemoveFinalizer, TeardownAndDestroy and the safe.* wrappers "
-      "are not under contract yet; the Is*Error classification functions are tied to specification functions by definitional clauses.",
+      COMMON + "Environment as the property states (no concurrent Destroy/re-create). AddFinalizer/RemoveFinalizer/Modify are proved to be thin layers (an error means no write, at most one write, the AddFinalizer mutator leaves every requested finalizer in the set); "
+      "the safe.* wrappers are not under contract; the Is*Error classification functions are tied to specification functions by definitional clauses.",
       "DESIGN.md §6 C04")
 claim("C18",
       "Proof of the local framing logic of the compression and encryption wrappers for every byte string (marker bytes, size threshold, unknown compressor id "
-      "rejected, version byte, length guard, all index/slice expressions in bounds) and that phase text forms parse back (ParsePhase/Phase.String).",
+      "rejected, version byte, length guard, all index/slice expressions in bounds) that phase text forms parse back (ParsePhase/Phase.String), and that the zstd decoder is built from non-limiting options.",
       COMMON + "zstd, AES-GCM and the underlying marshaler are used through assumed interface contracts; protobuf/YAML codecs, metadata<->proto mapping, version text "
-      "forms (known gap for versions >= 2^63) and decoder totality of third-party libraries are not under contract.",
+      "forms are under contract (ParseVersion parses back what Version.String writes, over an assumed decimal-text specification of strconv; finding F13, versions >= 2^63, repaired); timestamps and decoder totality of third-party libraries are not under contract.",
       "DESIGN.md §6 C18")
 claim("C07",
-      "Proof, per function, of the write-ordering obligations of the queue transform, cleanup and destroy controllers against a ghost trace maintained by the "
+      "Proof, per function, of the write-ordering obligations of the transform (loop bodies of processInputs/cleanupOutputs, reconcileTearingDownInput), queue transform, cleanup and destroy controllers against a ghost trace maintained by the "
       "owned.Writer interface contracts: the controller's finalizer is on a running input (as read, or AddFinalizer just succeeded) before Modify can create the output, "
       "an output is destroyed only after Teardown reported it ready (or it was read tearing-down with an empty finalizer set), "
       "the input finalizer is removed only after Destroy of that output succeeded or the output was reported not found, a cleanup controller removes its finalizer "
@@ -75,7 +88,9 @@ claim("C07",
       "tearing-down, unowned, finalizer-free resources. Known finding F9 (known_findings.txt): the finalizer-before-output obligation fails for tearing-down inputs "
       "reconciled as running under the ignore-teardown options; replayed on the real code, reported as KNOWN-FINDING.",
       COMMON + "Per-reconcile obligations; the induction over the history of reconciles (and 'consequently the input never disappears first') is cited, and the store's own "
-      "refusal to destroy with finalizers is C03. Not under contract: transform.Controller (range-over-func iterators), cleanup.RemoveOutputs/HasNoOutputs handlers. Writer/Reader/handler implementations are "
+      "refusal to destroy with finalizers is C03. transform.Controller iterates with range-over-func: the obligations are stated per iteration on the loop-body functions go/ssa makes of them (finalizer on the input before WriterModify; Destroy only after a ready Teardown; "
+      "an input finalizer stays scheduled for release under an output's ID only if that output is gone; release scheduled only after the removal handler returned nil), the loops' own induction and the final RemoveFinalizer loop are not; "
+      "assumed: the iterator calls the body only while the loop is active, user callbacks do not rewire the controller. Not under contract: cleanup.RemoveOutputs/HasNoOutputs handlers. Writer/Reader/handler implementations are "
       "represented by their interface contracts.",
       "DESIGN.md §6 C07")
 claim("C20",
@@ -92,8 +107,9 @@ claim("C15",
       "Proof for the per-kind cache handler (get, list, put, remove, append, len, contextWithTeardown): every element of the cached list is a non-nil resource with "
       "metadata after every operation (monitor invariant under the handler's mutex), every index derived from a binary search is in bounds, get returns a resource "
       "with the requested ID that is a fresh deep copy, list returns only items that went through the copying map step, a teardown-bound context is cancelled on the "
-      "spot only when the resource is absent or already tearing down, a waiter channel already registered for an ID is kept, and list works on a private "
-      "snapshot taken under the lock.",
+      "spot only when the resource is absent or already tearing down, a waiter channel already registered for an ID is kept, list works on a private "
+      "snapshot taken under the lock, put of a tearing-down resource and remove of any resource close and unregister the waiter of that ID (put of a running one keeps it), and the goroutine behind a teardown-bound "
+      "context writes nothing (the waiter registry is shared).",
       COMMON + "Only the contract-decidable, per-call part of C15 is claimed. Not decided: blocking until bootstrapped, never-going-backwards, coherence with "
       "notifications and equality with uncached reads at quiescence (history/liveness statements), ResourceCache dispatch, processEvents. The results of "
       "slices.BinarySearchFunc are assumptions at each call site and the sortedness of the list they rely on is NOT proved (the shifted-array obligations of "
@@ -104,7 +120,7 @@ claim("C17",
       "refuses an exclusive claim on a type that has any claim and any claim on an exclusively held type, records an accepted exclusive claim for exactly that "
       "controller, changes no other type, and changes nothing when it refuses; Add/DeleteControllerInput change only the named controller's list and nothing when they "
       "refuse, with all index arithmetic of the +/-1 neighbourhood scan in bounds, and an input whose namespace/type/ID equals a stored one is refused (loop "
-      "invariant over the scan; that binary search lands next to such an input is an assumption); GetControllerInputs and GetDependentControllers return copies. "
+      "invariant over the scan; that binary search lands next to such an input is an assumption); GetControllerInputs and GetDependentControllers return copies; rruntime UpdateInputs refuses an unsupported input kind before any database change. "
       "rruntime/qruntime NewAdapter carry 'a rejected registration performed no database change' over the ghost counter of accepted changes: this obligation FAILS "
       "and is the known finding F4 (replayed on the real code).",
       COMMON + "Not under contract: that a controller's input list is sorted and free of conflicting keys (the neighbourhood scan relies on it), Export, "
@@ -127,11 +143,12 @@ claim("C09",
       "or without requeue and with a parked notification, put of a fresh or an in-flight key). Underneath, the containers: SliceSet never holds an item twice, "
       "Add/Remove are exact; PriorityQueue never holds a key twice, Push replaces or keeps the entry of a key, reports 'added' iff the key was new, every key "
       "afterwards was there before or is the pushed one, Pop removes exactly the head; Peek/Len are panic-free; an Item marks itself released on its first "
-      "Requeue/Release.",
+      "Requeue/Release; a notification is parked only for a key that is in flight (loop invariant [parked-only-while-in-flight]: a release always flushes the parked entry of its key); "
+      "one pass of the qruntime worker has forgotten the item's backoff state whenever the reconcile did not fail, with or without a requeue interval.",
       COMMON + "Not decided: coalescing to the most recent *value*, that a parked notification is re-delivered after release (a liveness flavour: the code path "
       "is under the invariant, the 'eventually delivered' is not), the reported length (atomic counter, not modelled), ordering by release time inside "
-      "PriorityQueue (results of slices.IndexFunc/BinarySearchFunc for the closures used are assumptions at the call sites), timers and backoff (time not "
-      "modelled; ResettableTimer trusted frames), qruntime.runReconcile backoff policy.",
+      "PriorityQueue (results of slices.IndexFunc/BinarySearchFunc for the closures used are assumptions at the call sites), timers and the growth of the backoff (time not "
+      "modelled; ResettableTimer trusted frames; the exponential back-off library assumed).",
       "DESIGN.md §6 C09")
 claim("C14",
       "Proof of the selector semantics as one function: Labels.Matches is pinned down operator by operator for every label map and term (existence, equality, "
